@@ -11,3 +11,13 @@ pub(crate) fn dummy_cell<T, U: DataType, V: DataType, const D: usize>() -> Cell<
         _phantom: PhantomData,
     }
 }
+/// a Cell listing the given vertex keys (no neighbours, nil UUID) - enough for `contains_vertex`
+pub(crate) fn dummy_cell_with<T, U: DataType, V: DataType, const D: usize>(vs: &[VertexKey]) -> Cell<T, U, V, D> {
+    let mut c = dummy_cell::<T, U, V, D>();
+    let mut i = 0;
+    while i < vs.len() && i < 6 {
+        c.vertices.push(vs[i]);
+        i += 1;
+    }
+    c
+}
